@@ -60,6 +60,7 @@ func main() {
 			r.Assume("process-exit paths (termination signals, Fatalln after a failed rollback, `Listener failed; exiting`) are listed but not executed: the statement speaks about a dae that keeps running")
 			r.Assume("the previous generation is a zero control.ControlPlane; the real startControlPlaneRetirement goroutine runs on it including the real Close(); 'retired' is observed inside Close() (the function planted in the plane's cancel field, called first by Close) where the scheduler decides how long the teardown lasts; the part of Close after that point and RunReloadRetirementCleanup (successor is nil) are not separately observable")
 			r.Assume("the progress file is an in-memory cell behind the setRunSignalProgress/getRunSignalProgress seams (each access is one scheduling point); resetReloadProxyRuntimeState is replaced by a counter")
+			r.Assume("environment of a retirement (free choice per fully explored request): stale connections aborted at once | graceful drain with one session of the old generation that never ends and retirement budget left | the same with the virtual clock advanced past reloadTotalSwitchBudget before the retirement is registered (budget exhausted); at rest means: virtual time advanced past the ready timeout, the retirement budget and the muting window")
 			r.Assume("exploration is partitioned: in every scenario one request is explored through ALL alternatives of its class (fail / staged / nonstaged), the other requests through one canonical representative; every class takes both roles across the scenario list; the statically possible `listener == nil while reloading` branch of the main loop is offered only in the scenarios marked +relisten")
 			r.Assume("signals are delivered like os/signal does (non-blocking send into the 1-slot channel); a signal raised while the previous one is still in the channel is not modelled (the runtime drops it)")
 		},
